@@ -23,7 +23,8 @@ ASSUMPTIONS = [
     '(the empty ones pd.DatetimeIndex([])), arrays are writeable C-contiguous float64',
     "methods: 'ffill', 'bfill', 'backfill', 0, 5.5, ['ffill','bfill'], ['bfill','ffill'], ['ffill',0], 'nona', 'fnna', "
     "'ffill_na', 'ffill_0'; excluded: 'pad' (removed in pandas 3), interpolation methods, a date as method, axis=1, "
-    'constants together with a limit (so [\'ffill\',0] runs with limit=None only), negative limits, nona(value=...)',
+    'a constant together with a limit is only compared array-against-pandas (plus: no non-NaN cell changes, argument untouched) since which NaN cells are then filled is not stated '
+    '([\'ffill\',0] runs with limit=None only), negative limits, nona(value=...)',
     'a list of methods is run with the one limit applied to each of its fill steps (that is what "in sequence" with a single '
     'limit argument means)',
     "'ffill_0' on a column without any valid observation: the statement does not say whether 0 is written; NaN or 0 accepted",
@@ -43,6 +44,10 @@ def _menu():
         m.append((name, method, LIMITS))
     m.append(('0', 0, [None]))
     m.append(('5.5', 5.5, [None]))
+    # a constant WITH a limit: which NaN cells pandas then fills is not stated (DIFF = only the clauses that do not depend on it: the array result equals
+    # the values of the pandas result, no non-NaN cell changes, the argument is untouched)
+    m.append(('0 limit', 0, [1, 2]))
+    m.append(('5.5 limit', 5.5, [1]))
     m.append(('ffill+bfill', ['ffill', 'bfill'], LIMITS))
     m.append(('bfill+ffill', ['bfill', 'ffill'], LIMITS))
     m.append(('ffill+0', ['ffill', 0], [None]))
@@ -127,6 +132,8 @@ def m_ffill_edge(col, limit, after):
 def model(cols, n, method):
     """-> (kept row positions, columns) for one method / list of methods and one limit"""
     name, steps, limit = method
+    if name.endswith(' limit'):
+        return 'DIFF', None
     kept = list(range(n))
     cols = [list(c) for c in cols]
     for s in steps:
@@ -421,6 +428,19 @@ def check(case):
                 if how is not None:
                     out.viol('operand-mutated', '%s: the argument was modified: %s' % (label, how), **sig)
                 if raised:
+                    continue
+                if kept == 'DIFF':
+                    vals = np.asarray(res.values if inp.is_pd else res) if isinstance(res, (pd.Series, pd.DataFrame, np.ndarray)) else None
+                    raw0 = np.asarray(inp._raw())
+                    if vals is None or vals.shape != raw0.shape:
+                        out.viol('wrong-rows', '%s: a constant fill keeps every row, got %s' % (label, show(res)), **sig)
+                    elif not bool(np.all((vals == raw0) | (raw0 != raw0))):
+                        out.viol('non-nan-changed', '%s: a non-NaN cell changed: %s' % (label, show(vals.tolist())), **sig)
+                    elif inp.is_pd:
+                        pd_ok = res
+                    elif pd_ok is not None and not _arr_same(vals, np.asarray(pd_ok.values)):
+                        out.viol('array-differs-from-pandas', '%s: array result %s but the pandas result has values %s' % (label, show(vals.tolist()), show(np.asarray(pd_ok.values).tolist())), **sig)
+                    out.cls('%s:diff-only' % name)
                     continue
                 if inp.is_pd:
                     if _compare_pd(out, inp, res, kept, ecols, label, sig):
